@@ -69,6 +69,8 @@ RECURSIVE Denote(_, _)
 Denote(t, p) ==
     LET n == At(t, p)
     IN IF n.k = "xref" THEN Denote(t, Resolve(t, p)[2])
+       ELSE IF n.k = "call" /\ n.fn = "vmod.recnone" THEN Plain("scalar", Atom("n", ""), <<>>)
+       ELSE IF n.k = "call" /\ n.fn = "vmod.reclist" THEN Plain("list", NoVal, <<>>)
        ELSE IF n.k \in DynKinds THEN Plain("obj", NoVal, <<>>)
        ELSE IF n.k = "bind" THEN Plain("partial", NoVal, <<>>)
        ELSE IF IsList(n) THEN Plain("list", NoVal, [i \in 1..Len(n.ch) |-> <<n.ch[i][1], Denote(t, Append(p, n.ch[i][1]))>>])
